@@ -146,7 +146,7 @@ PickSimple == /\ "simple" \in Modes /\ pc = "pick" /\ mode' = "simple" /\ first'
 \* parameter files: lower-case identifiers -> int / float / bool / None / quote-free string / list
 PyVals == {VInt(385), VInt(-1), VFloat("f05"), VBool(TRUE), VNone, VStr("abc"), VStr("has_space"), VStr(""),
            VList(<<VInt(1), VInt(2)>>), VList(<<>>), VList(<<VStr("abc"), VFloat("f05")>>)}
-PyKeys == {"dat_path", "n_channels_dat", "offset"}
+PyKeys == {"dat_path", "n_channels_dat", "offset", "_tag"}      \* (a name with a leading underscore is a name)
 PickPython == /\ "python" \in Modes /\ pc = "pick" /\ mode' = "python" /\ first' = "none"
               /\ \E S \in SUBSET PyKeys : input' \in [S -> PyVals]
               /\ pc' = "done"
